@@ -256,6 +256,9 @@ def _history_calls(small):
             for up in (True, False):
                 calls.append(("from_shorthand", (n, sh, up)))
     # refused questions (how they are refused is not judged, only that they are refused the same way every time)
+    # sibling helpers of the same module (their own answers are compared with their cold answers too)
+    calls += [("get_interval", ("C", 3, "G")), ("get_interval", ("E", 5, "Bb")), ("invert", (["C", "E", "G"],)), ("measure", ("E", "C")),
+              ("augment_or_diminish_until_the_interval_is_right", ("C", "Eb", 3)), ("from_shorthand", ("a", "b3"))]
     calls += [("determine", ("G-4", "B")), ("determine", ("C", "Hb", True)), ("from_shorthand", ("Cx", "3")),
               ("from_shorthand", ("C", "9")), ("from_shorthand", ("E", "b3x", False))]
     return calls
